@@ -31,6 +31,7 @@ func runC02(c *Ctx) {
 	R.Rule("max-helper", "typ.Max (which calcHeight uses for a node with two children) returns an argument that is >= all the others, under every ordering of its arguments (C20's row, re-run here)", 1)
 	c20MinMaxRows(c, "max-helper", false, true)
 	R.Rule("fresh-node-height", "every node allocated in the package starts with the cached height of its shape: the leaf height (empty+1) without children, calcHeight after the child stores otherwise", 1)
+	R.Rule("leaf-insertion", "a node created on the insertion path (add, Tree.Add and the new helpers they call) is a leaf: it is given no existing subtree as a child - the height argument allows an insertion to grow a subtree by one level only", 1)
 	R.Rule("rotation-shape", "single rotations: the returned tree is (L n RL) r RR for a left rotation, LL l (LR n R) for a right rotation, in terms of the entry state", 2)
 	R.Rule("height-convention", "empty subtree = leaf height - 1; one child: 1 + its height; two children: 1 + max", 3)
 	R.Rule("rotation-table", "balance leans iff heights differ by > 1; rebalance: heavy side + strict opposite lean of the heavy child -> double rotation, else single; balanced -> unchanged", 5)
@@ -876,6 +877,64 @@ func runC02(c *Ctx) {
 		R.Decide(found != "", "rotation-table", "avl.(*node)", "rotation-"+want, "", "rotation of kind "+want+": "+found, "no function implements the "+want+" rotation structurally")
 		if found != "" {
 			R.Cover(found, "rotation-table")
+		}
+	}
+	// ---- leaf-insertion: what an insertion creates is a leaf
+	{
+		family := map[*FuncInfo]bool{}
+		var q []*FuncInfo
+		for _, n := range []string{"avl.(*node).add", "avl.(*Tree).Add"} {
+			if fi := c.P.Func(n); fi != nil {
+				family[fi] = true
+				q = append(q, fi)
+			}
+		}
+		for len(q) > 0 {
+			f := q[0]
+			q = q[1:]
+			for _, g := range c.P.calleesOf(f, false) {
+				if g != nil && !family[g] && g.Pkg == f.Pkg && !c.An.Baseline[g.Name] {
+					family[g] = true
+					q = append(q, g)
+				}
+			}
+		}
+		var fam []*FuncInfo
+		for fi := range family {
+			fam = append(fam, fi)
+		}
+		sort.Slice(fam, func(i, j int) bool { return fam[i].Name < fam[j].Name })
+		for _, fi := range fam {
+			fp := c.An.PathsOf(fi.SSA)
+			if fp.Unproven != "" {
+				continue
+			}
+			ok, why := true, ""
+			for _, p := range fp.Paths {
+				for i := range p.Events {
+					e := &p.Events[i]
+					if e.Kind != "store" {
+						continue
+					}
+					if e.Addr.Op == "alloc" && e.Val != nil && e.Val.Op == "struct" && isNodeStructType(a, e.Val.Typ) {
+						st := e.Val.Typ.Underlying().(*types.Struct)
+						for k := 0; k < st.NumFields() && k < len(e.Val.Args); k++ {
+							f := st.Field(k)
+							if v := e.Val.Args[k]; (sameField(f, a.nLeft) || sameField(f, a.nRight)) && !v.IsNil() && !isZeroish(v) {
+								ok, why = false, "the new node is created with "+v.String()+" as its "+f.Name()+" child"
+							}
+						}
+					}
+					if e.Addr.Op == "faddr" && e.Addr.Args[0].Op == "alloc" && isNodePtrType(a, e.Addr.Args[0].Typ) &&
+						(sameField(e.Addr.Obj, a.nLeft) || sameField(e.Addr.Obj, a.nRight)) && !e.Val.IsNil() && !isZeroish(e.Val) {
+						ok, why = false, "the new node is given "+e.Val.String()+" as a child"
+					}
+				}
+			}
+			o := R.Decide(ok, "leaf-insertion", fi.Name, "allocs", c.pos(fi), "every node created on the insertion path is a leaf", why+": a node put on top of an existing subtree is not an insertion at a leaf - the subtree below it can be two or more levels taller than its empty other side, which one rotation does not repair")
+			if !ok {
+				o.Breaks = "the tree is no longer height-balanced after inserting (e.g. an equal value)"
+			}
 		}
 	}
 	// ---- fresh-node-height: a node created in the package starts with the height its shape has
